@@ -62,8 +62,8 @@ type c11Case struct {
 	Base   uint32     `json:"base,omitempty"` // height of the first block (file mode: 0)
 	H0     uint32     `json:"h0,omitempty"`   // state-hash start height of the store (shim/mem modes)
 	Reopen int        `json:"reopen,omitempty"`
-	PreA   []c10KV    `json:"prea,omitempty"` // persisted contents under chain A
-	PreB   []c10KV    `json:"preb,omitempty"` // persisted contents under chain B
+	PreA   []c10KV    `json:"prea,omitempty"`  // persisted contents under chain A
+	PreB   []c10KV    `json:"preb,omitempty"`  // persisted contents under chain B
 	SameA  []int      `json:"samea,omitempty"` // chain A additionally pre-stores these net entries of block 0 (index modulo) with their final value
 	SameB  []int      `json:"sameb,omitempty"` // the same for chain B
 	Blocks []c11Block `json:"blocks"`
